@@ -41,6 +41,8 @@ SAN_ENV = {
     "asan": {"ASAN_OPTIONS": "abort_on_error=1:detect_leaks=1:allocator_may_return_null=1:log_path={log}.asan:handle_abort=1",
              "UBSAN_OPTIONS": "print_stacktrace=1:halt_on_error=1:log_path={log}.ubsan",
              "LSAN_OPTIONS": "log_path={log}.lsan"},
+    "xjit_asan": {"ASAN_OPTIONS": "abort_on_error=1:detect_leaks=0:allocator_may_return_null=1:log_path={log}.asan:handle_abort=1",
+                  "UBSAN_OPTIONS": "print_stacktrace=1:halt_on_error=1:log_path={log}.ubsan"},
     "tsan": {"TSAN_OPTIONS": "halt_on_error=0:log_path={log}.tsan:second_deadlock_stack=1:history_size=4"},
 }
 
@@ -371,6 +373,9 @@ def run_check(prop, cfg, tier, seed, replay=None):
         return 2
     if missing:
         sys.stderr.write("inconclusive: coverage floor not reached: %s\n" % ", ".join(missing))
+        return 2
+    if not cov["samples"]:
+        sys.stderr.write("inconclusive: the run recorded no sample cases\n")
         return 2
     if cov["evaluations"] < 1 or cov["distinct_nontrivial"] < 2:
         sys.stderr.write("inconclusive: too few cases observed (evaluations=%d, distinct_nontrivial=%d)\n" % (cov["evaluations"], cov["distinct_nontrivial"]))
